@@ -14,7 +14,7 @@ import tempfile
 from ..common import cnat, cz, cbool, clist, copt, cstr, coq_eval
 from ..impl import Impl
 
-GEN_FILES = ['PathCheck.v']
+GEN_FILES = ['PathCheck.v', 'ParseCalls.v']
 
 STR_POOL = ['a', 'b', 'c', 'Alice', 'Bob', 'carol', 'n10', 'n2', 'n1', 'Z', 'x_y', 'node-7', 'q', 'A']
 DELIMS = [',', '\t', ' ', ';']
@@ -133,7 +133,7 @@ def flags_lit(fl):
 def edges_expr(pairs, weights, id_kind, fl):
     f = cnat if id_kind == 'int' else cstr
     fn = 'from_edge_list_nat' if id_kind == 'int' else 'from_edge_list_str'
-    return 'view (%s %s %s %s)' % (fn, flags_lit(fl), clist(pairs, lambda e: '(%s, %s)' % (f(e[0]), f(e[1]))),
+    return 'view (%s pp_sym_passes_weighted %s %s %s)' % (fn, flags_lit(fl), clist(pairs, lambda e: '(%s, %s)' % (f(e[0]), f(e[1]))),
                                    copt(weights, lambda w: clist(w, cz)))
 
 
@@ -508,20 +508,20 @@ def part_edges(ctx, impl, rng, quick):
             adj[0] = [0]
         fl = dict(rng.choice(list(all_flag_combos())), shape=rand_shape(rng), matrix_only=rng.choice([None, True, False]))
         edges = [(i, j, 1) for i, nb in enumerate(adj) for j in nb]
-        expr = 'view (from_adjacency_list_nat %s %s)' % (flags_lit(fl), clist(adj, lambda r: clist(r, cnat)))
+        expr = 'view (from_adjacency_list_nat pp_sym_passes_weighted %s %s)' % (flags_lit(fl), clist(adj, lambda r: clist(r, cnat)))
         cases.append(('adj_list', 'from_adjacency_list', 'adjacency_list', dict(adj=adj, flags=fl), expr, 'int', edges, fl))
         keys = rng.sample(STR_POOL, rng.randint(1, 5))
         dadj = [[k, [rng.choice(STR_POOL) for _ in range(rng.choice([0, 1, 2, 3]))]] for k in keys]
         if not any(nb for _, nb in dadj):
             dadj[0][1] = [keys[0]]
         edges = [(k, j, 1) for k, nb in dadj for j in nb]
-        expr = 'view (from_adjacency_dict_str %s %s)' % (flags_lit(fl), clist(dadj, lambda r: '(%s, %s)' % (cstr(r[0]), clist(r[1], cstr))))
+        expr = 'view (from_adjacency_dict_str pp_sym_passes_weighted %s %s)' % (flags_lit(fl), clist(dadj, lambda r: '(%s, %s)' % (cstr(r[0]), clist(r[1], cstr))))
         cases.append(('adj_dict', 'from_adjacency_list', 'adjacency_list', dict(adj=dadj, flags=fl, dict=True), expr, 'str', edges, fl))
     # model
     model = [None] * len(cases)
     for kind in ('int', 'str'):
         idx = [i for i, c in enumerate(cases) if c[5] == kind]
-        vals = coq_eval('c18' + kind, ['Base.Util', 'Model.Parse'], [cases[i][4] for i in idx],
+        vals = coq_eval('c18' + kind, ['Base.Util', 'Model.Parse', 'Gen.ParseCalls'], [cases[i][4] for i in idx],
                         prelude=STR_PRELUDE)
         for i, v in zip(idx, vals):
             model[i] = conv_view(v)
